@@ -95,7 +95,64 @@ func needsJS(contentType, name string) bool {
 	return ext != ".js" && ext != ""
 }
 
+// c17Counter is a Stringer whose text changes when the template calls Inc.
+type c17Counter struct{ n int }
+
+func (c *c17Counter) String() string { return fmt.Sprint(c.n) }
+func (c *c17Counter) Inc() string    { c.n++; return "" }
+
+// c17Settled: a block's text is what its statements print one after the other, also
+// when a later statement changes what an earlier one has printed.
+func c17Settled(b *core.B) {
+	bodies := []string{
+		`<%= a %><% a[0] = "y" %><%= a %>`,
+		`<%= cnt %><% cnt.Inc() %><%= cnt %>|<%= [cnt] %><% cnt.Inc() %><%= cnt %>`,
+		`<%= when %>|<% let TIME_FORMAT = "2006" %><%= when %>`,
+		`<%= m["k"] %><%= mm %><% mm["k"] = "new" %>|<%= mm["k"] %>`,
+	}
+	wraps := []struct{ name, pre, post string }{
+		{"block-helper", `<%= capWith({q: 1}) { %>`, `<% } %>`},
+		{"contentFor-contentOf", `<% contentFor("blk") { %>`, `<% } %><%= contentOf("blk") %>`},
+		{"contentOf-default-block", `<%= contentOf("undefined") { %>`, `<% } %>`},
+		{"if-block", `<%= if (true) { %>`, `<% } %>`},
+		{"for-body", `<%= for (once) in [1] { %>`, `<% } %>`},
+		{"function-body", `<% let fb = fn() { %>`, `<% } %><%= fb() %>`},
+	}
+	mk := func() *plush.Context {
+		ctx := c17Base(&progEnv{}, map[string]string{}, "")
+		ctx.Set("a", []interface{}{"x"})
+		ctx.Set("cnt", &c17Counter{})
+		ctx.Set("m", map[string]interface{}{"k": "v"})
+		ctx.Set("mm", map[string]interface{}{"k": "old"})
+		return ctx
+	}
+	for _, body := range bodies {
+		inline := renderQuiet(body, mk())
+		if !inline.OK() {
+			continue
+		}
+		for _, w := range wraps {
+			t := w.pre + body + w.post
+			if !b.Begin("settled: " + t) {
+				continue
+			}
+			b.NonTrivialStr(t)
+			b.Count("composition:values-changed-between-two-outputs")
+			res := render(b, t, mk())
+			if res.Pan != nil {
+				continue
+			}
+			if res.Err != nil || res.Out != inline.Out {
+				b.Violate("differs-from-inline|"+w.name+"|value-changed-after-it-was-printed", fmt.Sprintf("inline: %q\ncomposed: %s", inline.Out, res))
+			}
+		}
+	}
+}
+
 func c17Run(b *core.B) {
+	if b.Batch == 0 {
+		c17Settled(b)
+	}
 	r := b.Rng(1)
 	n := 40000
 	if b.Tier == core.Thorough {
